@@ -7,6 +7,7 @@ import (
 	"context"
 	"encoding/json"
 	"fmt"
+	"regexp"
 	"sort"
 	"strings"
 	"time"
@@ -65,7 +66,10 @@ func w3DeathSig(prop string) func(stderr string, cs json.RawMessage) (string, st
 	}
 }
 
+var hexRe = regexp.MustCompile(`\(?0x[0-9a-fA-F]+\)?`)
+
 func firstWords(s string, n int) string {
+	s = hexRe.ReplaceAllString(s, "")
 	f := strings.Fields(s)
 	if len(f) > n {
 		f = f[:n]
@@ -860,10 +864,12 @@ func init() {
 			}
 			return 400, 5 * time.Minute
 		},
-		Gen:      genC05,
-		Exec:     withSample(genC05, execC05),
-		Shrink:   shrinkC05,
-		DeathSig: w3DeathSig("C05"),
+		WallPerSeed:  3 * time.Minute,
+		RecycleEvery: 25,
+		Gen:          genC05,
+		Exec:         withSample(genC05, execC05),
+		Shrink:       shrinkC05,
+		DeathSig:     w3DeathSig("C05"),
 	})
 	Register(&Check{
 		ID:    "C03",
@@ -882,10 +888,30 @@ func init() {
 			}
 			return 32, 6 * time.Minute
 		},
-		Gen:      genC03,
-		Exec:     withSample(genC03, execC03),
-		Shrink:   shrinkC03,
-		DeathSig: w3DeathSig("C03"),
+		Focus: func(cs json.RawMessage, v Violation) json.RawMessage {
+			var c C03Case
+			if json.Unmarshal(cs, &c) != nil || !c.Enumerate {
+				return nil
+			}
+			var n, pos int
+			i := strings.Index(v.Msg, "[crash of n")
+			if i < 0 {
+				return nil
+			}
+			if _, err := fmt.Sscanf(v.Msg[i:], "[crash of n%d at durable-write boundary position %d]", &n, &pos); err != nil {
+				return nil
+			}
+			c.Enumerate = false
+			c.W3.Crash = &CrashPoint{Node: n, Pos: pos}
+			b, _ := json.Marshal(c)
+			return b
+		},
+		WallPerSeed:  8 * time.Minute,
+		RecycleEvery: 1,
+		Gen:          genC03,
+		Exec:         withSample(genC03, execC03),
+		Shrink:       shrinkC03,
+		DeathSig:     w3DeathSig("C03"),
 	})
 }
 
